@@ -22,6 +22,26 @@ mut("c13_nil_header_deref", "C13", "internal/client/multiplexer.go", "resp.GetHe
 mut("c01_reply_body_of_request", "C01", "internal/client/multiplexer.go", "\t\t\treturn resp.Body, nil", "\t\t\treturn body, nil")
 mut("c06_unary_request_with_trailer", "C06,C01", "internal/client/multiplexer.go", "\t\tBody:   body,\n\t}", "\t\tBody:   body,\n\t\tTrailer: &goatorepo.Trailer{},\n\t}")
 
+mut("c17_delete_by_name", "C17", "proxy.go", "if cur, ok := p.clients[cmd.id]; ok && cur == cmd.client {", "if _, ok := p.clients[cmd.id]; ok {")
+mut("c17_source_check_dropped", "C17", "proxy.go", "if rpc.Header == nil || rpc.Header.Source != source {", "if rpc.Header == nil {")
+mut("c17_panic_on_bad_source", "C17", "proxy.go", "\t\tlog.Warn().Msgf(\"Bad Rpc: %v\", rpc)\n\t\treturn", "\t\tlog.Panic().Msgf(\"Bad Rpc: %v\", rpc)\n\t\treturn")
+mut("c16_record_twice", "C16", "proxy.go", "\t\trpc.Header.ProxyRecord = append(rpc.Header.ProxyRecord, p.id)", "\t\trpc.Header.ProxyRecord = append(append(rpc.Header.ProxyRecord, p.id), p.id)")
+mut("c16_wrong_queue", "C16", "proxy.go", "\tclient, ok := p.clients[destination]", "\tclient, ok := p.clients[rpc.Header.Source]")
+mut("c16_empty_next", "C16", "proxy.go", "if len(rpc.Header.ProxyNext) > 0 {", "if rpc.Header.ProxyNext != nil {")
+mut("c12_no_header_guard", "C12", "server.go", "\t\tif rpc.GetHeader() == nil {\n\t\t\tlog.Warn().Msgf(\"Server: received RPC without a header: ignoring message\")\n\t\t\tcontinue\n\t\t}\n", "")
+mut("c12_body_unknown_no_reset", "C12", "server.go", "\t\treturn h.resetStream(rpc)\n\t}\n\n\tif rpc.GetTrailer() != nil {", "\t\treturn nil\n\t}\n\n\tif rpc.GetTrailer() != nil {")
+mut("c12_panic_on_bad_metadata", "C12", "server.go", "\t\tlog.Error().Err(err).Msg(\"Server: failed to get context from headers\")", "\t\tlog.Panic().Err(err).Msg(\"Server: failed to get context from headers\")")
+mut("c03_unary_ok_code_kept", "C03", "server.go", "\t\tif st.Code() == codes.OK {\n\t\t\t// We know an error *did* occur, so re-write (only) the code\n\t\t\tstpb := st.Proto()\n\t\t\tstpb.Code = int32(codes.Internal)\n\t\t\tst = status.FromProto(stpb)\n\t\t}\n\t\trespStatus", "\t\trespStatus")
+mut("c06_response_not_swapped", "C06,C01", "server.go", "\t\tSource:      rpc.Header.Destination,\n\t\tDestination: rpc.Header.Source,\n\t}\n\tif len(rpc.Header.ProxyRecord) > 1 {\n\t\trespHeader", "\t\tSource:      rpc.Header.Source,\n\t\tDestination: rpc.Header.Destination,\n\t}\n\tif len(rpc.Header.ProxyRecord) > 1 {\n\t\trespHeader")
+mut("c14_unregister_wrong_key", "C14", "server.go", "\tdelete(h.streams, id)\n}", "\tdelete(h.streams, id+1)\n}")
+mut("c10_no_defer_unregister", "C10,C14", "server.go", "\tdefer h.unregisterStream(streamId)\n", "")
+mut("c05_server_wrong_stream", "C05", "server.go", "\tif handler, ok := h.streams[rpc.Id]; ok {\n\t\tif resetStream {", "\tif handler, ok := h.streams[rpc.Id+1]; ok {\n\t\tif resetStream {")
+mut("c07_reset_does_not_cancel", "C07", "server.go", "\t\tif resetStream {\n\t\t\thandler.cancel()\n\t\t} else {", "\t\tif resetStream {\n\t\t\t_ = handler.cancel\n\t\t} else {")
+mut("c06_sendmsg_with_trailer", "C06", "internal/server/stream.go", "\t\tBody: &goatorepo.Body{\n\t\t\tData: body.Materialize(),\n\t\t},\n\t}\n\n\tif !ss.protected.headersSent {", "\t\tBody: &goatorepo.Body{\n\t\t\tData: body.Materialize(),\n\t\t},\n\t\tTrailer: &goatorepo.Trailer{},\n\t}\n\n\tif !ss.protected.headersSent {")
+mut("c04_sendmsg_forgets_headers_sent", "C04,C06", "internal/server/stream.go", "\t\trpc.Header.Headers = internal.ToKeyValue(ss.protected.headers...)\n\t\tss.protected.headersSent = true\n", "\t\trpc.Header.Headers = internal.ToKeyValue(ss.protected.headers...)\n")
+mut("c03_trailer_ok_rewrite_removed", "C03", "internal/server/stream.go", "\t\tif st.Code() == codes.OK {", "\t\tif false && st.Code() == codes.OK {")
+mut("c02_server_eof_on_error_status", "C02,C03", "internal/server/stream.go", "\t\tif st.GetCode() == int32(codes.OK) {\n\t\t\treturn io.EOF", "\t\tif st.GetCode() == int32(codes.OK) || st.GetCode() == int32(codes.Canceled) {\n\t\t\treturn io.EOF")
+
 only = sys.argv[1] if len(sys.argv) > 1 else ""
 os.makedirs(os.path.join(here, 'mutants'), exist_ok=True)
 for name, props, file, old, new in M:
